@@ -469,6 +469,8 @@ def _mutable_globals():
                 continue
             if isinstance(val, (list, dict, set, bytearray, collections.deque)):
                 out.append((m, name))
+            elif (getattr(type(val), "__module__", "") or "").startswith("gaftools") and not isinstance(val, type):
+                out.append((m, name))  # an instance of a gaftools class kept at module level
     return out
 
 
